@@ -26,15 +26,29 @@
  *  Z <buf>              sock_addr_deserialize(buf, len); result only freed
  *  A <bytes|!>          aws_readkeys(file with these bytes | missing file)
  *  F <bytes|!>          readpass_file(file with these bytes | missing file)
- *  T <tbl> <opterr> <argv0> <argv1> ...   getopt loop over a GETOPT_* table
- *  R <tbl> <opterr> <k> <n1> <argv...>     three-step getopt sequence: the first
+ *  T <tbl> <opterr> <argv0> <argv1> ...   getopt loop over GETOPT_* table 0..2,
+ *                       run twice: over a main()-style vector (argc + 1
+ *                       pointers, argv[argc] == NULL) and over a vector of
+ *                       exactly argc pointers with NO terminator slot (a vector
+ *                       the program built itself: getopt(argc, argv) is given a
+ *                       count, so argv[argc] is not its to read - under ASan that
+ *                       read is a heap-buffer-overflow).  Both runs must agree.
+ *                       "endmiss=" counts, in the unterminated run, the
+ *                       argument-taking options which were the last word and
+ *                       lacked their argument (the only place where the parser
+ *                       has to decide whether another word exists).
+ *  R <tbl> <opterr> <k> <n1> <argv...>     three-step getopt sequence (tbl 0..2:
+ *                       one table; 4 + 3 * first + second: the abandoned parse
+ *                       and the later one use tables of different sizes, table 2
+ *                       having two slots and the others about thirty): the first
  *                       n1 strings are parsed and the GETOPT loop is LEFT after
  *                       k option labels (possibly in the middle of a packed
  *                       group); that argv (strings and vector) is freed;
  *                       optreset = 1 and the remaining strings are parsed to
  *                       the end.  A read of the freed argv is a use-after-free
  *                       for ASan; the second parse must also equal a parse of
- *                       the same argv after a completed one.
+ *                       the same argv after a completed one.  Both vectors are
+ *                       exactly argc pointers, no terminator slot.
  *
  * argv[1] of the driver = directory for the scratch file of A / F.
  * getaddrinfo is interposed (-Wl,--wrap): anything but a numeric IPv4 literal
@@ -704,13 +718,27 @@ static struct {
 	size_t budget;		/* upper bound on the number of getopt calls */
 	size_t iters;
 	size_t nflag, narg, nmiss, ndef;
+	size_t nendmiss;	/* argument-taking option returned with optarg NULL */
 	int bad;
+	int tbl;		/* which table the loop uses */
 	long stop_after;	/* leave the loop after this many labels; -1: never */
 	int midpack;		/* the last call stopped inside a packed group */
 	uint64_t trace;		/* FNV over the labels and optarg positions */
 } G;
 
 #define LONGOPT "--LLLLLLLLLLLLLLLLLLLLLLLLLLLLLLLLLLLLLLLLLLLLLLLLLLLLLLLLLLLLLLLLLLLLLL"
+
+/* The argument-taking options of tables 0 and 1 (table 2 has none). */
+static int
+is_argopt(const char * ch)
+{
+
+	if (G.tbl == 2)
+		return (0);
+	return (strcmp(ch, "-f") == 0 || strcmp(ch, "-o") == 0 ||
+	    strcmp(ch, "--foo") == 0 || strcmp(ch, "--x") == 0 ||
+	    strcmp(ch, LONGOPT) == 0);
+}
 
 /* A returned option string must be a readable string. */
 static void
@@ -719,6 +747,13 @@ got_ch(const char * ch, int optind_before)
 
 	G.trace = vh_fnv(G.trace, (const uint8_t *)ch, strlen(ch) + 1);
 	G.iters++;
+	/*
+	 * The registered string of an argument-taking option comes back with
+	 * optarg == NULL only when no argument was attached and the vector
+	 * had no further word: the option was the last of the argc words.
+	 */
+	if (ch != GETOPT_DUMMY && optarg == NULL && is_argopt(ch))
+		G.nendmiss++;
 	/*
 	 * Every path of getopt that returns a label moves optind on, except a
 	 * packed group which still has characters left.
@@ -849,6 +884,30 @@ getopt_loop1(void)
 	}
 }
 
+/* Table 2: two slots (tables 0 and 1 have about thirty). */
+static void
+getopt_loop2(void)
+{
+	const char * ch;
+	int before;
+
+	while ((before = optind, ch = GETOPT(G.argc, G.argv)) != NULL) {
+		got_ch(ch, before);
+		if (G.iters > G.budget || G.bad)
+			return;
+		GETOPT_SWITCH(ch) {
+		GETOPT_OPT("-a"):
+			G.nflag++;
+			break;
+		GETOPT_DEFAULT:
+			G.ndef++;
+			break;
+		}
+		if (ABANDON_HERE)
+			return;
+	}
+}
+
 /* An argument vector: every string and the vector itself exact-size. */
 struct avset {
 	size_t argc;
@@ -858,21 +917,35 @@ struct avset {
 	size_t total;
 };
 
-/* strs[i] / lens[i]: the argc argument strings. */
+/*
+ * strs[i] / lens[i]: the argc argument strings.  term != 0: the vector main()
+ * gets, argc + 1 pointers with argv[argc] == NULL; term == 0: a block of
+ * exactly argc pointers (argc == 0: an empty block), nothing behind it.
+ */
 static void
-av_make(struct avset * A, size_t argc, uint8_t ** strs, size_t * lens)
+av_make(struct avset * A, size_t argc, uint8_t ** strs, size_t * lens, int term)
 {
 	size_t i;
 
 	A->argc = argc;
 	A->fstr = vh_xmalloc((argc + 1) * sizeof(void *));
-	A->av = (char **)vh_exact(NULL, (argc + 1) * sizeof(char *), &A->fv);
+	if (term || argc > 0)
+		A->av = (char **)vh_exact(NULL,
+		    (argc + (term ? 1 : 0)) * sizeof(char *), &A->fv);
+	else {
+		/* an aligned pointer to the end of an 8-byte block */
+		A->fv = malloc(sizeof(char *));
+		if (A->fv == NULL)
+			vh_die("oom");
+		A->av = (char **)A->fv + 1;
+	}
 	A->total = 0;
 	for (i = 0; i < argc; i++) {
 		A->av[i] = exact_str(strs[i], lens[i], &A->fstr[i]);
 		A->total += strlen(A->av[i]);
 	}
-	A->av[argc] = NULL;
+	if (term)
+		A->av[argc] = NULL;
 }
 
 static void
@@ -897,12 +970,15 @@ go_parse(int tbl, int err, struct avset * A, long stop_after)
 	/* the dummy call + one call per character or argument at most */
 	G.budget = A->total + A->argc + 4;
 	G.stop_after = stop_after;
+	G.tbl = tbl;
 	optreset = 1;
 	opterr = err;
 	if (tbl == 0)
 		getopt_loop0();
-	else
+	else if (tbl == 1)
 		getopt_loop1();
+	else
+		getopt_loop2();
 }
 
 /* Documented range of what a loop left behind; 1 (and a BAD answer) if not. */
@@ -927,14 +1003,47 @@ go_check(struct avset * A)
 static void
 do_getopt(int tbl, int err, size_t argc, uint8_t ** strs, size_t * lens)
 {
-	struct avset A;
+	struct avset A, B;
+	size_t it, fl, ar, mi, de, em;
+	uint64_t tr;
+	int oi;
 
-	av_make(&A, argc, strs, lens);
+	/* 1. the vector main() gets: argv[argc] == NULL */
+	av_make(&A, argc, strs, lens, 1);
 	go_parse(tbl, err, &A, -1);
-	if (go_check(&A) == 0)
-		rp("it=%zu optind=%d flag=%zu arg=%zu miss=%zu def=%zu",
-		    G.iters, optind, G.nflag, G.narg, G.nmiss, G.ndef);
+	if (go_check(&A)) {
+		av_free(&A);
+		return;
+	}
+	it = G.iters;
+	oi = optind;
+	fl = G.nflag;
+	ar = G.narg;
+	mi = G.nmiss;
+	de = G.ndef;
+	em = G.nendmiss;
+	tr = G.trace;
 	av_free(&A);
+
+	/* 2. exactly argc pointers and nothing behind them */
+	av_make(&B, argc, strs, lens, 0);
+	go_parse(tbl, err, &B, -1);
+	if (go_check(&B) == 0) {
+		if (G.iters != it || optind != oi || G.nflag != fl ||
+		    G.narg != ar || G.nmiss != mi || G.ndef != de ||
+		    G.nendmiss != em || G.trace != tr)
+			rbad("getopt over argc pointers without a terminator slot "
+			    "differs from the NULL-terminated vector: it=%zu "
+			    "optind=%d flag=%zu arg=%zu miss=%zu def=%zu, "
+			    "terminated it=%zu optind=%d flag=%zu arg=%zu "
+			    "miss=%zu def=%zu", G.iters, optind, G.nflag, G.narg,
+			    G.nmiss, G.ndef, it, oi, fl, ar, mi, de);
+		else
+			rp("it=%zu optind=%d flag=%zu arg=%zu miss=%zu def=%zu "
+			    "forms=2 endmiss=%zu", it, oi, fl, ar, mi, de,
+			    G.nendmiss);
+	}
+	av_free(&B);
 }
 
 /*
@@ -942,20 +1051,28 @@ do_getopt(int tbl, int err, size_t argc, uint8_t ** strs, size_t * lens)
  * the first command line, strs[n1..argc-1] the second.
  */
 static void
-do_getopt_seq(int tbl, int err, long k, size_t n1, size_t argc,
+do_getopt_seq(int tbls, int err, long k, size_t n1, size_t argc,
     uint8_t ** strs, size_t * lens)
 {
 	struct avset A, B;
 	size_t it1, it2, fl, ar, mi, de;
 	uint64_t tr;
 	int mid, oi;
+	int tbl1, tbl;
 
+	/* 0..2: one table for both parses; 4 + 3 * first + second otherwise */
+	if (tbls < 4)
+		tbl1 = tbl = tbls;
+	else {
+		tbl1 = ((tbls - 4) / 3) % 3;
+		tbl = (tbls - 4) % 3;
+	}
 	if (n1 > argc)
 		n1 = argc;
 
 	/* 1. the first command line, left after k labels */
-	av_make(&A, n1, strs, lens);
-	go_parse(tbl, err, &A, k);
+	av_make(&A, n1, strs, lens, 0);
+	go_parse(tbl1, err, &A, k);
 	mid = G.midpack;
 	it1 = G.iters;
 	if (go_check(&A)) {
@@ -967,7 +1084,7 @@ do_getopt_seq(int tbl, int err, long k, size_t n1, size_t argc,
 	av_free(&A);
 
 	/* 3. another command line after optreset */
-	av_make(&B, argc - n1, strs + n1, lens + n1);
+	av_make(&B, argc - n1, strs + n1, lens + n1, 0);
 	go_parse(tbl, err, &B, -1);
 	if (go_check(&B)) {
 		av_free(&B);
@@ -994,7 +1111,8 @@ do_getopt_seq(int tbl, int err, long k, size_t n1, size_t argc,
 			    G.iters, optind, G.nflag, G.narg, G.nmiss, G.ndef);
 		else
 			rp("it=%zu optind=%d flag=%zu arg=%zu miss=%zu def=%zu "
-			    "it1=%zu mid=%d", it2, oi, fl, ar, mi, de, it1, mid);
+			    "it1=%zu mid=%d forms=1 endmiss=%zu", it2, oi, fl, ar,
+			    mi, de, it1, mid, G.nendmiss);
 	}
 	av_free(&B);
 }
